@@ -110,11 +110,63 @@ def run(ctx, spec):
         _recheck(ctx, rrng, last, r)
         last = {}
   _recheck(ctx, rrng, last, r)
+  _ladders(ctx, spec, rrng, r, names)
   try:
     ctx.sample({'generator': names[spec['part'] % len(names)], 'n': n,
                 'seed': seed})
   except NameError:
     pass
+
+
+def _ladders(ctx, spec, rrng, r, names):
+  """One seed, many sizes, on the registry instance: ascending, then (after a
+  call with another seed) descending.  A request must not depend on which
+  sizes were requested for the same seed before it."""
+  for gi, name in enumerate(names):
+    if name == 'urandom' or name.startswith('subsetsum'):
+      continue
+    for rep in range(2 if ctx.tier == 'quick' else 8):
+      if (gi + rep) % 4 != spec['part'] % 4:
+        continue
+      seed = r.bits(r.choice([16, 48, 64])) + 1
+      if not ctx.want('ladder/%s/%d' % (name, seed)):
+        continue
+      sizes = set()
+      while len(sizes) < 10:
+        k = r.randint(1, 9)
+        sizes.add(max(1, r.choice([32 * k - r.below(8), 8 * k - r.below(8),
+                                   32 * k, r.randint(1, 300)])))
+      sizes = sorted(sizes)
+      g = rrng.GetRng(name)
+      try:
+        asc = [g.RandomBits(n, seed=seed) for n in sizes]
+        g.RandomBits(64, seed=seed + 1)
+        desc = [g.RandomBits(n, seed=seed) for n in reversed(sizes)][::-1]
+        mixed = [rrng.GetRng(name).RandomBits(n, seed=seed) for n in
+                 sizes[::2] + sizes[1::2]]
+        mixed = dict(zip(sizes[::2] + sizes[1::2], mixed))
+      except Exception as e:  # pylint: disable=broad-except
+        ctx.violation('randombits-raised-%s@%s' % (type(e).__name__, name),
+                      repr(e), {'name': name, 'seed': seed, 'sizes': sizes})
+        continue
+      ctx.count('same_seed_ladders')
+      for n, a, d in zip(sizes, asc, desc):
+        ctx.count('evaluations')
+        ctx.count('ladder_comparisons')
+        ctx.distinct('ladder', name, n, seed)
+        model = None
+        if name == 'java':
+          model = prng.java_biginteger(n, seed)
+        elif name.startswith('trunclcg') and n % 8 == 0:
+          model = prng.trunc_lcg_bits(int(name[8:]), seed, n)
+        vals = {a, d, mixed[n]} | ({model} if model is not None else set())
+        if len(vals) > 1:
+          ctx.violation('depends-on-earlier-sizes-for-same-seed@%s' % name,
+                        '%s.RandomBits(%d, seed=%d): ascending ladder %x, '
+                        'descending ladder %x, interleaved %x%s; sizes %r' % (
+                            name, n, seed, a, d, mixed[n], '' if model is None
+                            else ', model %x' % model, sizes),
+                        {'name': name, 'n': n, 'seed': seed, 'sizes': sizes})
 
 
 def _recheck(ctx, rrng, last, r):
@@ -152,6 +204,7 @@ def finalize(agg, tier):
   c = agg['counters']
   inc = ['reach counter %s is zero' % k for k in (
       'model_comparisons', 'purity_rechecks', 'unseeded_calls_interleaved',
+      'same_seed_ladders',
       'gen:java', 'gen:trunclcg64',
       'gen:mt19937', 'gen:pcg64') if not c.get(k)]
   return [], inc
